@@ -362,7 +362,7 @@ var _ I__iter__ = (*List)(nil)
 var _ I__getitem__ = (*List)(nil)
 var _ I__setitem__ = (*List)(nil)
 
-// var _ richComparison = (*List)(nil)
+var _ richComparison = (*List)(nil)
 
 func (a *List) M__eq__(other Object) (Object, error) {
 	b, ok := other.(*List)
@@ -402,6 +402,34 @@ func (a *List) M__ne__(other Object) (Object, error) {
 		}
 	}
 	return False, nil
+}
+
+func (a *List) M__lt__(other Object) (Object, error) {
+	if b, ok := other.(*List); ok {
+		return seqOrder(a.Items, b.Items, Lt, func(la, lb int) bool { return la < lb })
+	}
+	return NotImplemented, nil
+}
+
+func (a *List) M__le__(other Object) (Object, error) {
+	if b, ok := other.(*List); ok {
+		return seqOrder(a.Items, b.Items, Le, func(la, lb int) bool { return la <= lb })
+	}
+	return NotImplemented, nil
+}
+
+func (a *List) M__gt__(other Object) (Object, error) {
+	if b, ok := other.(*List); ok {
+		return seqOrder(a.Items, b.Items, Gt, func(la, lb int) bool { return la > lb })
+	}
+	return NotImplemented, nil
+}
+
+func (a *List) M__ge__(other Object) (Object, error) {
+	if b, ok := other.(*List); ok {
+		return seqOrder(a.Items, b.Items, Ge, func(la, lb int) bool { return la >= lb })
+	}
+	return NotImplemented, nil
 }
 
 type sortable struct {
